@@ -140,7 +140,7 @@ variable (σ : St) (t : Nat)
 
 @[simp] theorem mgrDone_ring (k : MK) : (mgrDone σ t k).ring = σ.ring := by
   unfold mgrDone; simp only []; repeat' split
-  all_goals first | rfl | exact sendDone_ring σ t _ | (simp only [recvDropTail_ring, sendDropTail_ring]; rfl)
+  all_goals first | rfl | exact sendDone_ring σ t _ | (simp only [recvDropTail_ring, sendDropTail_ring]; done) | (simp only [recvDropTail_ring, sendDropTail_ring]; rfl)
 @[simp] theorem mgrDone_th (k : MK) (u : Nat) (h : u ≠ t) : (mgrDone σ t k).th u = σ.th u := by
   unfold mgrDone; simp only []; repeat' split
   all_goals first
@@ -149,9 +149,9 @@ variable (σ : St) (t : Nat)
     | frame_simp
 
 @[simp] theorem freeEnd_ring (k : MK) : (freeEnd σ t k).ring = σ.ring := by
-  unfold freeEnd; split <;> (simp only [mgrDone_ring]; try rfl)
+  unfold freeEnd; simp only [mgrDone_ring]; rfl
 @[simp] theorem freeEnd_th (k : MK) (u : Nat) (h : u ≠ t) : (freeEnd σ t k).th u = σ.th u := by
-  unfold freeEnd; split <;> simp only [mgrDone_th _ t _ u h]
+  unfold freeEnd; simp only [mgrDone_th _ t _ u h]
 
 @[simp] theorem freeTail_ring (k : MK) : (freeTail σ t k).ring = σ.ring := by
   unfold freeTail; repeat' split
